@@ -13,15 +13,17 @@
        table `pe` of op-specific partial evaluators whose replacements are locally sound (`pe_ok`; Cast->Identity,
        Reshape->Identity, Dropout, Shape/Size/Gather->Constant, Concat, sequence ops: NOT proved here, they need
        truthful type/shape annotations and kernel identities; covered differentially) and every visitor of nested
-       graphs satisfying `subs_spec` (satisfiable: `subs_id_ok`; the recursion through visit_subs_d and the renaming
-       of replaced graph outputs are proved only at the level of eval_graph_ren, not composed);
+       graphs satisfying `subs_spec`;
+     * C03_fold_graph_sound_partial: the same for visit_graph of the model as a whole - the recursion through nested
+       graphs (visit_subs_d satisfies subs_spec) and the replacement of graph outputs with its renaming
+       (C03_replace_outputs_sound) are proved, so that pe_ok is the only remaining hypothesis about the pass;
      * C03_fold_node_sound, C03_identity_subst_sound, C03_if_inline_sound, C03_dce_sound: the four generic
        transformations, each for all graphs / environments;
      * the stages implemented outside /repo (onnx_ir: Inline, DCE, lift, dedup, CSE, OutputFix, NameFix) and the
        rewrite rules (C05/C07) are covered differentially only (harness/c03.py). *)
 From Coq Require Import List String ZArith Bool.
 Require Import OV.Graph.Syntax OV.Graph.Sem OV.Graph.Names OV.Graph.SemProofs OV.Gen.FoldTables.
-Require Import OV.Opt.Fold OV.Opt.SemLemmas OV.Opt.FoldProofs OV.Opt.FoldTheorems.
+Require Import OV.Opt.Fold OV.Opt.SemLemmas OV.Opt.FoldProofs OV.Opt.FoldNested OV.Opt.FoldTheorems.
 Import ListNotations.
 Local Open Scope list_scope.
 Local Open Scope string_scope.
@@ -50,6 +52,31 @@ Theorem C03_fold_pass_sound_partial : forall V sem truth trip of_nat of_bool lim
       eval_graph V sem truth trip of_nat of_bool limit (S F) outer (Graph gi inits' ns' outs) args = Some r.
 Proof. exact fold_pass_sound_b. Qed.
 Print Assumptions C03_fold_pass_sound_partial.
+
+(* visit_graph of the model as a whole: traversal with the recursion through nested graphs (visit_subs_d) and the
+   replacement of graph outputs including its renaming; the only remaining hypothesis about the pass is pe_ok *)
+Theorem C03_fold_graph_sound_partial : forall V sem truth trip of_nat of_bool limit ref_eval const_val attr_of_val v_dtype v_dims v_ints v_tensor,
+  oracles V sem truth ref_eval const_val attr_of_val v_dtype v_ints ->
+  forall pe cfg, pe_ok V sem truth trip of_nat of_bool limit pe ->
+  forall depth fuel bound st g st' g' news tr,
+    fold_graph V ref_eval const_val attr_of_val v_dtype v_dims v_ints v_tensor pe true cfg depth fuel bound st g = OK (st', g', news, tr) ->
+    incl (s_guard V st) (c_graph_inputs cfg) ->
+    forall F outer args r,
+      (forall e0, bind (g_ins g) args outer = Some e0 -> inv V st e0 /\ dom_ok V e0 (g_ins g ++ bound)) ->
+      eval_graph V sem truth trip of_nat of_bool limit (S F) outer g args = Some r ->
+      eval_graph V sem truth trip of_nat of_bool limit (S F) outer g' args = Some r.
+Proof. exact fold_graph_sound_b. Qed.
+Print Assumptions C03_fold_graph_sound_partial.
+
+Theorem C03_replace_outputs_sound : forall V sem truth trip of_nat of_bool limit cfg bound gi st nodes news outs scope st2 ns2 tr,
+  replace_outputs V true cfg bound gi st nodes news outs scope = OK (st2, ns2, tr) ->
+  ext V st st2 scope /\
+  forall F e0 e1 r, dom_ok V e0 bound ->
+    run V sem truth trip of_nat of_bool limit (eval_graph V sem truth trip of_nat of_bool limit F) e0 nodes = Some e1 ->
+    inv V st e1 -> lookups e1 outs = Some r ->
+    exists e2, run V sem truth trip of_nat of_bool limit (eval_graph V sem truth trip of_nat of_bool limit F) e0 ns2 = Some e2 /\ lookups e2 outs = Some r.
+Proof. exact replace_outputs_sound. Qed.
+Print Assumptions C03_replace_outputs_sound.
 
 (* the node-list form with the invariants it maintains (what the induction proves) *)
 Theorem C03_visit_nodes_sound : forall V sem truth trip of_nat of_bool limit ref_eval const_val attr_of_val v_dtype v_dims v_ints v_tensor,
